@@ -52,7 +52,7 @@ func vxGet(kv []vxMetaKV, k string) string {
 // metadata (+ real IP iff absent); the caller receives the backend's body,
 // status and reply metadata. The harness plays caller and backend on scripted
 // connections. args: realIPPresent(0/1), backendMode(0 OK reply, 1 error status reply, 2 backend connection closed),
-//                    nBody, nMeta(0/1 extra request pair), replyMeta(0/1)
+//                    nBody, nMeta(0/1 extra request pair), replyMeta(0/1)[, nReply (length of the backend's reply body, default nBody)]
 func VX_C19_ProxyCall(args []int) {
 	realIP, backendMode, nBody, nMeta, replyMeta := args[0], args[1], args[2], args[3], args[4]
 	// backend link: a client session of a second peer over a scripted conn
@@ -79,7 +79,11 @@ func VX_C19_ProxyCall(args []int) {
 	vxAssume(st.OK())
 	vxWaitIdle()
 	var rcode int32
-	rbody := vxBytes("rbody", nBody)
+	nReply := nBody
+	if len(args) > 5 {
+		nReply = args[5]
+	}
+	rbody := vxBytes("rbody", nReply)
 	rmv := vxString("rmv", 1)
 	if backendMode != 2 {
 		// the proxy handler is blocked in the forwarded call
@@ -131,7 +135,7 @@ func VX_C19_ProxyCall(args []int) {
 	case 0:
 		vxAssert(rm.StatusOK(), "backend OK => OK")
 		rb := vxBodyOf(rm)
-		vxAssert(len(rb) == nBody, "backend's body length")
+		vxAssert(len(rb) == nReply, "backend's body length")
 		for k := range rbody {
 			if k < len(rb) {
 				vxAssert(rb[k] == rbody[k], "backend's body bytes unchanged")
